@@ -192,7 +192,37 @@ def verus_phase(pid, P, tier, seed, t0):
                              repo_file=('src/' + meta['file']) if meta else None,
                              repo_lines=list(meta['lines']) if meta else None,
                              message=d['message'], rendered=d.get('rendered', '')))
-    if vr.get('encountered-vir-error') or (machinery and not failures) or (vr.get('encountered-error') and not failures and not vr.get('errors')):
+    # Stability: an obligation of an item whose source text is unchanged (no token drift) was discharged when the contract
+    # was written; if it fails now the usual cause is SMT instability (the solver sees the whole file).  Such failures are
+    # re-tried under other solver seeds and only kept if they fail under every seed; failures in changed items are kept as is.
+    drift_of = {f['key']: f['drift_tokens'] for f in em.functions}
+    unstable = []
+    def entry_drift(f):
+        return drift_of.get(f.get('entry') or '', 0)
+    suspects = [f for f in failures if not entry_drift(f)]
+    if suspects and not vr.get('encountered-vir-error'):
+        surviving = set(f['obligation'] for f in suspects)
+        for sd in (7, 23):
+            r2 = run_verus(path, seed=sd, rlimit=P.get('rlimit', 60))
+            failed_now = set()
+            for d in r2['diags']:
+                if d.get('level') != 'error' or classify(d) is None:
+                    continue
+                prim = [s_ for s_ in d.get('spans', []) if s_.get('is_primary')] or d.get('spans', [])
+                meta = None
+                for s_ in prim + d.get('spans', []):
+                    meta = locate(line_map, s_['line_start'])
+                    if meta:
+                        break
+                failed_now.add((meta['entry'] if meta else None, classify(d)))
+            surviving = set(o for o in surviving if any((f.get('entry'), f['kind']) in failed_now for f in suspects if f['obligation'] == o))
+            if not surviving:
+                break
+        unstable = [f['obligation'] for f in suspects if f['obligation'] not in surviving]
+        failures = [f for f in failures if entry_drift(f) or f['obligation'] in surviving]
+        if unstable:
+            machinery.append('unstable under solver seed (discharged under another seed): ' + '; '.join(unstable)[:600])
+    if vr.get('encountered-vir-error') or (machinery and not failures and not unstable) or (vr.get('encountered-error') and not failures and not vr.get('errors')):
         raise Undecided('verus front-end / resource problem: ' + '; '.join(machinery)[:3000] + '\n' + r['raw_err'][-2000:])
     if machinery and failures:
         # e.g. rlimit in one function and a real failure in another: report the real ones, note the rest
@@ -210,7 +240,8 @@ def verus_phase(pid, P, tier, seed, t0):
     stub_fns = [f for f in em.functions if not f['verified']]
     frag = dict(
         obligations=vr['verified'] + vr['errors'],
-        discharged=vr['verified'],
+        discharged=vr['verified'] + (vr['errors'] if (unstable and not failures) else 0),
+        unstable_obligations=unstable,
         checker_cmd=r['cmd'] + '   (cwd /verif/build; file regenerated from /repo working tree)',
         verus_wall_s=round(r['wall'], 2),
         smt_time_ms=j['times-ms'].get('smt', {}).get('smt-run'),
